@@ -81,12 +81,12 @@ CHECKS = {
    "DESIGN.md §6 C10, §2 E4"),
  "C17": ("model_checking",
    "bounded-exhaustive enumeration of alias tables × symbol strings against a reference replacement",
-   "Every alias table with ≤ 2 entries (thorough: ≤ 3) over 3 names and a 23-value menu (chains, cycles, self reference, trailing blanks, operators, reserved words, assignments, redirections, quoted names, values holding two commands that are aliases, values containing $( ), backquote, $(( )) and ${ } expansions) plus 8 fixed three-entry chains and 140 three-entry tables whose outer value holds several commands that are aliases × every string of ≤ 3 (thorough: ≤ 4) symbols over a 13-symbol alphabet: the reference model performs the textual replacement on the symbol string (command-name positions from the grammar model, recursion guard, trailing-blank rule, cross-checked against bash and dash), the unfolded text is parsed by the real parser without aliases and must give the same position-free AST; every run terminates.",
+   "Every alias table with ≤ 2 entries (thorough: ≤ 3) over 3 names and a 23-value menu (chains, cycles, self reference, trailing blanks, operators, reserved words, assignments, redirections, quoted names, values holding two commands that are aliases, values containing $( ), backquote, $(( )) and ${ } expansions) plus 8 fixed three-entry chains and 140 three-entry tables whose outer value holds several commands that are aliases × every string of ≤ 3 (thorough: ≤ 4) symbols over a 13-symbol alphabet: the reference model performs the textual replacement on the symbol string (command-name positions from the grammar model, recursion guard, trailing-blank rule, cross-checked against bash and dash), the unfolded text is parsed by the real parser without aliases and must give the same position-free AST; every run terminates. Also: command substitutions in the source ($( ), backquotes, inside double quotes and ${v:-…}) holding every command list of ≤ 2 symbols over {x y a ; | 'x'} and 5 compound forms, for every table of ≤ 2 entries; and, at text level, one alias whose value is every string of ≤ 3 (thorough 4) characters over 17 significant characters × 6 continuations of the source, compared with the parse of the text in which the word is replaced.",
    "Only the substitution is modelled, the unfolded text goes through the real parser; alias values with newlines are covered for termination only (C01).",
    "DESIGN.md §6 C17"),
  "C01": ("model_checking",
    "bounded-exhaustive enumeration of sources × source kinds × alias tables × GODEBUG settings in crash-isolated worker processes",
-   "Every symbol string of the tier's alphabets/bounds and every character string of ≤ 5 (quick) / 6 (thorough) characters over the 14 significant shell characters is parsed by ParseCommands and ParseCommand from a string, a []byte, a one-byte io.Reader, a bufio.Reader and a custom RuneScanner, the shorter ones also under 7 adversarial alias tables, plus every alias value of ≤ 3 (thorough 4) characters over 12 significant characters in 3 tables × 7 sources, all under GODEBUG=panicnil=0 and =1 (≈ 5·10^7 calls in the quick tier). Each case runs in a GOMAXPROCS=1 worker subprocess that announces the case first, so a crash from a background goroutine, the runtime's deadlock abort or a stalled worker is attributed to it; the result must be commands and/or an error.",
+   "Every symbol string of the tier's alphabets/bounds and every character string of ≤ 5 (quick) / 6 (thorough) characters over the 14 significant shell characters is parsed by ParseCommands and ParseCommand from a string, a []byte, a one-byte io.Reader, a bufio.Reader and a custom RuneScanner, the shorter ones also under 7 adversarial alias tables, plus every alias value of ≤ 3 (thorough 4) characters over 17 significant characters in 3 tables × 7 sources, all under GODEBUG=panicnil=0 and =1 (≈ 5·10^7 calls in the quick tier). Each case runs in a GOMAXPROCS=1 worker subprocess that announces the case first, so a crash from a background goroutine, the runtime's deadlock abort or a stalled worker is attributed to it; the result must be commands and/or an error.",
    "Free-running: one OS-chosen schedule per case (all schedules are C06's subject); a hang is detected by the Go runtime's deadlock detector or a 120 s no-progress watchdog; unbounded random programs are not explored.",
    "DESIGN.md §6 C01"),
  "C05": ("model_checking",
